@@ -104,6 +104,7 @@ def gen_history(rng, malformed=False):
     # start with a subscription most of the time
     plan_close = rng.random() < 0.25
     stall_plan = rng.random() < 0.35    # this history has a stalled driver (to-driver ring full) at some point
+    chan_plan = rng.random() < 0.4      # the driver reports channel endpoint errors for the subscriptions' channel
     for step in range(n):
         r = rng.random()
         live = [g for g in sim.order if g in sim.subs and sim.subs[g]['live']]
@@ -217,6 +218,17 @@ def gen_history(rng, malformed=False):
             if j < sim.clones:
                 sim.clones -= 1
                 sim.stamps.append(sim.now)
+        elif chan_plan and r < 0.975 and held:
+            # a channel endpoint error (error code 4) on the subscriptions' channel status indicator: every registered subscription
+            # loses its images and is forgotten by the conductor; later announcements for it must be ignored
+            ops.append(['E', now])
+            for g in sim.subs:
+                if sim.subs[g]['live']:
+                    if sim.subs[g]['imgs']:
+                        sim.withdrawn = True
+                    sim.subs[g] = {'live': False, 'imgs': []}
+            sim.stamps.append(now)
+            sim.cycle(now)
         elif plan_close and step > n // 2:
             ops.append(['X', now])
             sim.now = max(sim.now, now)
@@ -274,6 +286,15 @@ def scripted():
               [['ST'], ['S', 50200], ['P', 50200, 2, 3], ['DS', 50300, 1], ['DP', 50400, 2], ['DR'], ['S', 50500], ['T', 51501], ['T', 56502],
                ['T', 57503], ['T', 62504], ['X', 63000], ['T', 64001], ['T', 70000], ['T', 76000]]
         cases.append({'kind': 'run', 'cfg': [5000, 50000, 0], 'ops': ops, 'nt': True})
+    # channel endpoint error (error code 4) on the subscriptions' channel status indicator: subscriptions with 0 / 1 / 2 images,
+    # announcements and withdrawals afterwards (ignored), a kept clone, a new subscription, the mappings going away after linger
+    for nimg in (0, 1, 2):
+        ops = [['S', 90000], ['S', 90000]] + [['A', 90100 + i, 1000 + i, 1, i] for i in range(nimg)] + ([['H', 1, 0]] if nimg else []) + \
+              [['E', 90200], ['A', 90300, 1002, 1, 2], ['A', 90300, 1003, 2, 3], ['U', 90400, 1000, 1], ['S', 90500], ['A', 90600, 1003, 3, 3],
+               ['E', 90700], ['T', 91701], ['T', 96702], ['T', 97703], ['T', 102704], ['DS', 102800, 1], ['DS', 102800, 2], ['T', 110000]]
+        cases.append({'kind': 'run', 'cfg': [5000, 90000, 0], 'ops': ops, 'nt': True})
+    cases.append({'kind': 'run', 'cfg': [5000, 90000, 0], 'nt': True,
+                  'ops': [['S', 90000], ['P', 90000, -1, 3], ['A', 90100, 1000, 1, 0], ['E', 90200], ['X', 90300], ['E', 90400], ['T', 91401], ['T', 96402], ['T', 101403], ['DP', 101500, 2], ['T', 110000]]})
     return cases
 
 
@@ -294,7 +315,7 @@ def impl_line(c):
 
 
 _NAMES = {'S': 'Subscribe', 'P': 'Publish', 'A': 'Avail', 'U': 'Unavail', 'T': 'Tick', 'DS': 'DropSub', 'DP': 'DropPub',
-          'H': 'Hold', 'UH': 'Unhold', 'X': 'CloseClient', 'ST': 'Stall', 'DR': 'Drain'}
+          'H': 'Hold', 'UH': 'Unhold', 'X': 'CloseClient', 'ST': 'Stall', 'DR': 'Drain', 'E': 'ChanErr'}
 
 
 def _ops(c):
